@@ -7,7 +7,29 @@ sys.path.insert(0, os.path.dirname(os.path.abspath(__file__)))
 import runner  # noqa: E402
 
 
+def record_names():
+    """rebuild every unit on the current tree and write lib/names.json (the names the contract text is written against)"""
+    import json
+    import vxlib
+    units = sorted(d for d in os.listdir(os.path.join(vxlib.VERIF, "units")) if os.path.exists(os.path.join(vxlib.VERIF, "units", d, "unit.py")))
+    vxlib._NAMES = {}
+    for u in units:
+        m = runner.load_unit(u)
+        try:
+            if hasattr(m, "build"):
+                m.build(vacuity=False)
+            elif hasattr(m, "build_kani"):
+                m.build_kani()
+        except Exception as e:
+            print("skipped", u, str(e)[:100])
+    with open(vxlib.NAMES_FILE, "w") as f:
+        json.dump(vxlib.RECORDED, f, indent=0, sort_keys=True)
+    print("recorded", {k: len(v) for k, v in vxlib.RECORDED.items()})
+
+
 def main():
+    if sys.argv[1] == "--record-names":
+        return record_names()
     name = sys.argv[1]
     vac = "--vac" in sys.argv
     full = "--full" in sys.argv
